@@ -79,7 +79,7 @@ def required(tier):
         "burn_checked": 4000 * k, "burn_multichain_positive": 1500 * k, "posterior_checked": 6000 * k,
         "mode_checked": 4000 * k, "support_checked": 4000 * k, "support_with_dosage_variants": 400 * k,
         "support_differs_from_mode_genotype_support": 40 * k,
-        "allele_frequencies_checked": 3000 * k, "repeated_unit_in_genotype": 2500 * k, "posterior_frequencies_checked": 2000 * k,
+        "allele_frequencies_checked": 3000 * k, "repeated_unit_in_genotype": 2500 * k, "posterior_frequencies_checked": 2000 * k, "posterior_frequencies_order_variants": 300 * k,
         "as_array_checked": 2000 * k, "incongruence_checked": 4000 * k, "incongruence_decided_0": 2000 * k,
         "incongruence_decided_1": 300 * k, "incongruence_decided_2": 300 * k, "individual_checked": 600 * k,
         "individual_padded_checked": 250 * k,
@@ -720,6 +720,17 @@ def allele_functionals(trace, keys, n_allele, n, rng, col, payload, what, llks=N
     check_mode(g, p, emp, allele_key, cx, "mode()")
     check_support_allele(post, emp, cx)
     check_posterior_frequencies(bt, emp, n_allele, cx)
+    # allele frequencies / counts / occurrence are functionals of the multiset stored at each step: the same trace with the
+    # alleles of every step stored in another order must give the same numbers (posterior() itself relies on the samplers'
+    # canonical order, which is monitored on the real samplers)
+    if emp.ploidy >= 2 and rng.random() < 0.5:
+        G = np.array(bt.genotypes, copy=True)
+        if G.size:
+            perm = rng.permuted(np.tile(np.arange(G.shape[-1]), G.shape[:-1] + (1,)), axis=-1)
+            Gs = np.take_along_axis(G, perm, axis=-1)
+            shuffled = type(bt)(Gs, bt.llks, bt.n_allele)
+            cx.col.count("posterior_frequencies_order_variants")
+            check_posterior_frequencies(shuffled, emp, n_allele, cx)
     na = n_allele + (int(rng.integers(1, 3)) if rng.random() < 0.2 and n_allele + emp.ploidy <= 11 else 0)
     check_as_array(post, emp, na, cx)
     check_incongruence(bt, emp, thr, cx, "allele")
